@@ -2,7 +2,13 @@
 replay of the recorded schedule in the Lean model, property oracles (DESIGN.md sections 4 and 5)."""
 import copy
 
-OUTCOMES = ['done', 'failedRet', 'raises', 'retNone', 'notPair', 'badStatus', 'badUpdate']
+OUTCOMES = ['done', 'failedRet', 'raises', 'retNone', 'notPair', 'badStatus', 'badUpdate',
+            # variants of the classes above (mapped onto them for the model, see MODEL_OUTCOME)
+            'sysExit', 'retWaiting', 'retPending', 'clobberOwn']
+# the model has one constructor per class of outcome; the concrete variants generated here are mapped onto their class:
+# an exception that is not an `Exception` (SystemExit) is a raising task, a status that is not a final one is a bad
+# status, an update that replaces the task's own entry by something that is not a mapping is a bad update
+MODEL_OUTCOME = {'sysExit': 'raises', 'retWaiting': 'badStatus', 'retPending': 'badStatus', 'clobberOwn': 'badUpdate'}
 CORRESPONDS = ('Model/Sched.lean (init, step, enabled, decide, terminal) vs valjean.cosette.backends.queue.QueueScheduling + '
                'valjean.cosette.env.Env under the controlled scheduler (harness/vcheck/ctlsched.py): the recorded schedule is '
                'replayed in the model; environment, queue, counters, what every task saw when it started and the set of enabled '
@@ -193,6 +199,14 @@ def run_rounds(case, sched_override=None):
                 return update, 'not-a-status'
             if out == 'badUpdate':
                 return 42, TaskStatus.DONE
+            if out == 'sysExit':
+                raise SystemExit(3)
+            if out == 'retWaiting':
+                return update, TaskStatus.WAITING
+            if out == 'retPending':
+                return update, TaskStatus.PENDING
+            if out == 'clobberOwn':
+                return {self.name: 5}, TaskStatus.DONE
             raise ValueError(out)
 
     observations = []
@@ -323,7 +337,8 @@ def run_impl(case, run):
 
 
 def model_cfg(rnd):
-    return {'n': rnd['n'], 'deps': rnd['deps'], 'hard': rnd['hard'], 'out': rnd['out'], 'workers': rnd['workers'],
+    return {'n': rnd['n'], 'deps': rnd['deps'], 'hard': rnd['hard'], 'out': [MODEL_OUTCOME.get(o, o) for o in rnd['out']],
+            'workers': rnd['workers'],
             'cyclic': rnd['cyclic']}
 
 
